@@ -128,6 +128,9 @@ void parsec_atomic_rwlock_rdlock(parsec_atomic_rwlock_t *L)
     int count = 0;
     struct timespec ts = { .tv_sec = 0, .tv_nsec = 100 };
     w = parsec_atomic_fetch_add_int32(&L->rin, RINC) & WBITS;
+#if defined(PARSEC_VERIF)
+    PARSEC_VERIF_YIELD(PARSEC_VERIF_SITE_RWLOCK);
+#endif
     if( w != 0 ) {
         while( w == (L->rin & WBITS) )
             if( count++ > 1000 )
@@ -148,11 +151,17 @@ void parsec_atomic_rwlock_wrlock(parsec_atomic_rwlock_t *L)
     int count = 0;
     struct timespec ts = { .tv_sec = 0, .tv_nsec = 100 };
     ticket = parsec_atomic_fetch_inc_int32(&L->win);
+#if defined(PARSEC_VERIF)
+    PARSEC_VERIF_YIELD(PARSEC_VERIF_SITE_RWLOCK);
+#endif
     while( L->wout != ticket )
         if( count++ > 1000 )
             nanosleep( &ts, NULL );
     w = PRES | (ticket & PHID);
     ticket = parsec_atomic_fetch_add_int32(&L->rin, w);
+#if defined(PARSEC_VERIF)
+    PARSEC_VERIF_YIELD(PARSEC_VERIF_SITE_RWLOCK);
+#endif
     count = 0;
     while( L->rout != ticket )
         if( count++ > 1000 )
@@ -173,6 +182,9 @@ void parsec_atomic_rwlock_wrunlock(parsec_atomic_rwlock_t *L)
      */
     parsec_atomic_wmb(); // release
     parsec_atomic_fetch_and_int32(&L->rin, 0xFFFFFF00);
+#if defined(PARSEC_VERIF)
+    PARSEC_VERIF_YIELD(PARSEC_VERIF_SITE_RWLOCK);
+#endif
     L->wout = L->wout+1;
 }
 
